@@ -8,7 +8,7 @@ import re
 from vcommon import Prop, REPO, load_corpus
 import gen_c14
 import gen_c13
-from gen_c13 import SITE_KIND
+from gen_c13 import SITE_KIND, is_interrupt
 
 JP_ORDER = [n for n, _ in gen_c14.JOINPOINTS]
 MARK = "INJECTED#"
@@ -119,7 +119,10 @@ class C13(Prop):
             "contain blanks, parentheses, non-ASCII, quotes, '#', '+', '~', "
             "x log level INFO|ERROR x database good|malformed|unreadable; every plan is compared with a pyflyby-free run of the "
             "same cells in which the names pyflyby imported successfully are pre-bound; exhaustive part: every site x class on "
-            "a fixed 4-cell script; non-trivial when at least one fault fired or the database is bad")
+            "a fixed 4-cell script; non-trivial when at least one fault fired or the database is bad.  Round 4: shells whose user "
+            "namespace is not their module's globals (user_module + user_ns), `name?` / `name??` / real autocall triggers, imports "
+            "interrupted by KeyboardInterrupt / SystemExit, host code without `__name__`, a third party wrapping "
+            "Completer.global_matches on top of pyflyby's advice (O-only)")
     trusted_base = [
         "IPython 9.17 internals (run_cell, the completer's matcher loop which swallows and prints matcher exceptions, "
         "transform_ast) — observed, not modelled",
@@ -233,6 +236,40 @@ class C13(Prop):
             out.append(dict(config="terminal", loglevel="ERROR", db="good", cells=odd, faults=[]))
             out.append(dict(config="terminal", loglevel="INFO", db="good", cells=odd,
                             faults=[dict(site="parse", exc="OSError", nth=2, persist=False)]))
+        # round 4: every trigger of an auto-import (cell, `name?`, `name??`, autocall, %prun, %run, completion) on a shell
+        # built with a module AND a separate local namespace: which namespace receives the binding is observed
+        for sc in (["pinfo", "known", "pinfo_fn", "autocall_on"], ["pinfo2", "autocall_on", "prun", "known_fn"],
+                   ["complete_attr", "run", "multi", "pinfo"], ["assign_use", "target", "two_known", "pinfo_fn"]):
+            cells = [mk(kk, 9 + j) for j, kk in enumerate(sc)]
+            for config in ("usermod", "terminal"):
+                out.append(dict(config=config, loglevel="ERROR", db="good", cells=cells, faults=[]))
+                out.append(dict(config=config, loglevel="INFO", db="good", cells=cells,
+                                faults=[dict(site="scan", exc="ValueError", nth=3, persist=False)]))
+        # round 4: the auto-import is interrupted (KeyboardInterrupt / SystemExit raised by the imported module, or arriving
+        # at the import-execution site), then ordinary cells
+        for first in ("known_int", "known_exit"):
+            cells = [mk(first, 1), mk("known", 2), mk("pinfo", 3), mk("complete_global", 4), mk(first, 5), mk("known_fn", 6)]
+            out.append(dict(config="terminal", loglevel="ERROR", db="good", cells=cells, faults=[]))
+            out.append(dict(config="terminal", loglevel="ERROR", db="good", cells=cells,
+                            faults=[dict(site="db_load", exc="OSError", nth=4, persist=True)]))
+        cells = [mk("known", 1), mk("pinfo", 2), mk("plain", 3), mk("autocall_on", 4), mk("known", 5)]
+        for exc in gen_c13.BASE_EXC:
+            for nth in (1, 2, 3):
+                out.append(dict(config="terminal", loglevel="ERROR", db="good", cells=cells,
+                                faults=[dict(site="import_exec", exc=exc, nth=nth, persist=False)]))
+        # round 4: the shell is driven from host code whose globals have no `__name__`; no fault at all, and one fault
+        for sc in (self.FIXED_SCRIPT, ["complete_attr", "run", "prun", "debug"]):
+            cells = [mk(kk, 5 + j) for j, kk in enumerate(sc)]
+            out.append(dict(config="terminal", host="noname", loglevel="ERROR", db="good", cells=cells, faults=[]))
+            out.append(dict(config="terminal", host="noname", loglevel="INFO", db="good", cells=cells,
+                            faults=[dict(site="db_load", exc="OSError", nth=2, persist=True)]))
+        # round 4: another extension wraps Completer.global_matches on top of pyflyby's advice, then an internal error,
+        # then completions (pyflyby's layer cannot be taken out any more: it must fall through to the original)
+        for db, faults in (("malformed", []), ("good", [dict(site="db_load", exc="OSError", nth=2, persist=True)]),
+                           ("good", [dict(site="complete", exc="ValueError", nth=2, persist=False)]), ("good", [])):
+            cells = [mk("complete_global", 1), mk(gen_c14.F_WRAP_GM, 0), mk("complete_global", 2), mk("known", 3),
+                     mk("complete_global", 4), mk("complete_attr_bound", 5), mk("complete_global", 6)]
+            out.append(dict(config="terminal", loglevel="ERROR", db=db, cells=cells, faults=faults))
         for c in load_corpus(self.id):
             self._plan(c)
         return [self._plan(c) for c in out]
@@ -243,7 +280,17 @@ class C13(Prop):
         r = rng.random()
         db = "good" if r < 0.86 else ("malformed" if r < 0.93 else "unreadable")
         cells, level0 = gen_c13.add_session_events(rng, cells, self._mods())
-        return self._plan(dict(config="terminal", loglevel=level0 or rng.choice(["ERROR", "ERROR", "INFO"]), db=db, cells=cells,
+        # round 4: 15 % of the plans run on a shell whose user namespace is not its module's globals
+        config = "usermod" if rng.random() < 0.15 else "terminal"
+        if rng.random() < 0.12:
+            # another extension wraps the completer's global_matches on top of pyflyby's advice (O-only, see notes/C13.md)
+            cells.insert(rng.randint(0, 2), gen_c13.make_cell(gen_c14.F_WRAP_GM, 0, 0, self._mods()))
+            cells.append(gen_c13.make_cell("complete_global", rng.randrange(8), rng.randrange(8), self._mods()))
+        if rng.random() < 0.12:
+            # the host program that drives the shell runs in a namespace without `__name__`
+            return self._plan(dict(config=config, host="noname", loglevel=level0 or rng.choice(["ERROR", "ERROR", "INFO"]), db=db,
+                                   cells=cells, faults=gen_c13.gen_faults(rng)))
+        return self._plan(dict(config=config, loglevel=level0 or rng.choice(["ERROR", "ERROR", "INFO"]), db=db, cells=cells,
                                faults=gen_c13.gen_faults(rng)))
 
     # -- implementation ---------------------------------------------------------------
@@ -252,6 +299,8 @@ class C13(Prop):
         cells = [dict(c, text=c["text"].replace("@MODS@", mods)) for c in case["cells"]]
         j = dict(kind="c13", config=case.get("config", "terminal"), pf=pf, loglevel=case.get("loglevel", "ERROR"),
                  db=case.get("db", "good"), cells=cells, faults=case.get("faults", []))
+        if case.get("host"):
+            j["host"] = case["host"]
         if preseed is not None:
             j["preseed"] = preseed
         return j
@@ -346,7 +395,12 @@ class C13(Prop):
                     withdrawn_at = i
                 continue
             fired = [t for t in a["trace"] if t[2]]
-            interrupted = any(t[2] == "KeyboardInterrupt" for t in fired)
+            interrupted = any(is_interrupt(t[2]) for t in fired)
+            # ---- which namespace received bindings: the module globals of a shell with a separate user namespace change
+            # exactly as without pyflyby (auto-imports go to the user namespace, never there)
+            if (a.get("gns_new"), a.get("gns_gone")) != (b.get("gns_new"), b.get("gns_gone")):
+                F("the globals of the shell's module differ from the pyflyby-free run", i, got=a.get("gns_new"), want=b.get("gns_new"),
+                  gone=a.get("gns_gone"), auto=a.get("auto_imported"))
             # ---- process-global state (sys.path, cwd, zzq_* modules, builtins, hooks, warning filters ...)
             ga, gb = a.get("gstate"), b.get("gstate")
             if ga is not None and gb is not None and ga != gb:
@@ -355,11 +409,20 @@ class C13(Prop):
                   got={k: _clip(ga[k]) for k in keys[:3]}, want={k: _clip(gb.get(k)) for k in keys[:3]},
                   trace=[t for t in fired][:3])
             if interrupted:
-                # KeyboardInterrupt is a BaseException: _safe_call lets it through by design; only the state checks apply
-                fired = [t for t in fired if t[2] != "KeyboardInterrupt"]
+                # KeyboardInterrupt / SystemExit are BaseExceptions: _safe_call lets them through by design; only the
+                # state checks apply to the interrupted cell itself
+                fired = [t for t in fired if not is_interrupt(t[2])]
                 a = dict(a, escaped=None)
                 if a["kind"] == "complete":
                     a = dict(a, matches=b["matches"], stdout=b["stdout"], stderr=b["stderr"])
+                else:
+                    # the cell ends with the interrupt instead of whatever it would have done; names imported before the
+                    # interrupt stay (they were successfully auto-imported)
+                    auto = _names_of(a.get("auto_imported", []))
+                    keep = {k: v for k, v in a["ns_new"].items() if k not in auto}
+                    a = dict(a, result=b.get("result"), err=b.get("err"), err_before=b.get("err_before"), stdout=b["stdout"],
+                             stderr=b["stderr"], ns_new=dict(b["ns_new"], **{k: v for k, v in a["ns_new"].items() if k in auto}),
+                             ns_gone=b["ns_gone"]) if keep == {k: v for k, v in b["ns_new"].items() if k in keep} else a
             internal = [t for t in fired if t[1] is not None and not by_design_local(t[0], t[2])]
             reported = any("Disabling pyflyby auto importer" in l for l in a["pf_log"])
             relevant = [t for t in fired if not by_design_local(t[0], t[2])]
@@ -407,14 +470,18 @@ class C13(Prop):
             # ---- withdrawal
             if withdrawn_at is not None and withdrawn_at < i:
                 if a["site_calls"] or a["pf_log"]:
+                    ever_debug = case.get("loglevel") == "DEBUG" or any(c.get("kind") == "level" and c.get("text") == "DEBUG" for c in cells[:i])
                     F("pyflyby still works / reports after it withdrew", i, site_calls=a["site_calls"], pf_log=a["pf_log"][:3],
-                      withdrawn_at=withdrawn_at)
+                      withdrawn_at=withdrawn_at, ever_debug=ever_debug, level=a.get("level_before"),
+                      wrapped=any(c.get("text") == gen_c14.F_WRAP_GM for c in cells[:i]))
             if internal or reported:
-                if self._check_withdrawn(F, i, a, internal[:2]) and withdrawn_at is None:
+                wrapped_gm = any(c.get("text") == gen_c14.F_WRAP_GM for c in cells[:i])
+                if self._check_withdrawn(F, i, a, internal[:2], foreign_on=("global_matches",) if wrapped_gm else ()) \
+                        and withdrawn_at is None:
                     withdrawn_at = i
         return fails[:6]
 
-    def _check_withdrawn(self, F, i, a, internal=None):
+    def _check_withdrawn(self, F, i, a, internal=None, foreign_on=()):
         imp = a["importer"]
         bad = []
         if imp["state"] != "DISABLED":
@@ -422,6 +489,8 @@ class C13(Prop):
         if imp["ndisablers"]:
             bad.append("disablers=%d" % imp["ndisablers"])
         for name in JP_ORDER:
+            if name in foreign_on and a["mv"]["jp"][name] == ["ext"]:
+                continue        # the slot holds the third party's wrapper (Aspect.unadvise: "seems modified; not unadvising it")
             if a["mv"]["jp"][name] != "unset":
                 bad.append("joinpoint " + name)
         if any(e[0] == "pf" for e in a["mv"]["hl"]["ast_transformers"]):
@@ -439,7 +508,7 @@ class C13(Prop):
                 continue
             if not out or out[-1][0] != hook:
                 out.append([hook, "ok"])
-            if fired and out[-1][1] == "ok":
+            if fired and out[-1][1] == "ok" and not is_interrupt(fired):
                 out[-1][1] = "scanSyntax" if (site in ("scan", "scan_sym", "scan_scope") and fired.endswith("SyntaxError")) \
                     else SITE_KIND[site]
         rd = redisplay_failure(a)
@@ -465,14 +534,15 @@ class C13(Prop):
 
     def model_requests(self, case, obs):
         pf = obs["pf"]
-        if case.get("config", "terminal") != "terminal":
-            fail = 4
-        else:
-            fail = None
+        fail = 4 if case.get("config", "terminal") == "jedi" else None
         if self._variant is None:
             return []
-        if any(f.get("exc") == "KeyboardInterrupt" for f in case.get("faults", [])):
+        if any(c.get("text") == gen_c14.F_WRAP_GM for c in case["cells"]):
+            return []          # O-only: the model's joinpoint values have no "foreign wrapper around pyflyby's advice"
+        if any(f.get("exc") in gen_c13.BASE_EXC and f.get("site") != "import_exec" for f in case.get("faults", [])):
             return []          # BaseException is outside the model (and the property)
+        # (an import interrupted by KeyboardInterrupt / SystemExit: the invocation is sent as `ok` — no internal error,
+        # the state trajectory is that of a healthy invocation; the escape comparison is skipped for that cell)
         mops = [["enable", False, fail]]
         marks = []
         for seg in self._cell_mops(pf):
@@ -515,6 +585,8 @@ class C13(Prop):
             # (the prompt-redisplay failure is an environment-triggered extra escape; it is compared separately below)
             if a.get("level_before") == "DEBUG" or a["kind"] in ("level", "foreign"):
                 continue      # debug mode re-raises by design; the state trajectory above does not depend on it
+            if any(is_interrupt(t[2]) for t in a["trace"]):
+                continue      # BaseException: outside the model; the state trajectory above is compared
             m_esc = any(s["delivered"] == "exception" for s in seg)
             o_esc = bool(a["escaped"]) or any(e and MARK in e[1] for e in (a.get("err"), a.get("err_before"))) \
                 or (MARK in (a["stdout"] + a["stderr"])) or redisplay_failure(a) == "pt_cli" \
@@ -636,7 +708,20 @@ class C13(Prop):
         return bool(tr) and all(t[1] == "astVisit" for t in tr) and set(failure.get("fields", [])) <= {"result", "stdout"} \
             and "+seen_by_" in str(want.get("result")) and "+seen_by_" not in str(got.get("result"))
 
-    families = {"D23_debug_statement_hook_unprotected": fam_d23.__func__,
+    @staticmethod
+    def fam_stale_debug(case, failure):
+        """C13-D7: PyflybyLogger.set_level does not clear the logger's isEnabledFor cache (the logger is not registered with
+        logging's manager), so after DEBUG -> quieter level `logger.debug` lines keep being printed.  Visible after a withdrawal
+        only through a layer a third party wrapped (it cannot be removed and passes through): debug lines, no work."""
+        if failure.get("what") != "pyflyby still works / reports after it withdrew":
+            return False
+        if failure.get("site_calls") or not failure.get("wrapped") or not failure.get("ever_debug") or failure.get("level") == "DEBUG":
+            return False
+        return all(l.startswith(("global_matches_with_autoimport(", "attr_matches_with_autoimport(", "_get_pdb_if_is_in_pdb()"))
+                   for l in failure.get("pf_log", []))
+
+    families = {"stale_debug_lines_after_set_level": fam_stale_debug.__func__,
+                "D23_debug_statement_hook_unprotected": fam_d23.__func__,
                 "withdrawal_inside_transformer_loop_skips_next": fam_midloop.__func__,
                 "unprintable_exception_logging_error": fam_logging.__func__,
                 "user_traceback_shows_wrapper_frames": fam_frames.__func__,
